@@ -246,10 +246,12 @@ func runC04Concurrent(cases []string, out *bufio.Writer, _ []string) {
 			continue
 		}
 		var wg sync.WaitGroup
+		start := make(chan struct{}) // all producers are released together so that they really overlap
 		for p := 0; p < np; p++ {
 			wg.Add(1)
 			go func(p int) {
 				defer wg.Done()
+				<-start
 				for n := 0; n < ni; n++ {
 					kind := byte('e')
 					if rawEvery > 0 && n%rawEvery == rawEvery-1 {
@@ -262,6 +264,7 @@ func runC04Concurrent(cases []string, out *bufio.Writer, _ []string) {
 				}
 			}(p)
 		}
+		close(start)
 		wdone := make(chan struct{})
 		go func() { wg.Wait(); close(wdone) }()
 		ok := "1"
@@ -299,10 +302,12 @@ func runC06Stalled(cases []string, out *bufio.Writer, _ []string) {
 			submitTo(l, 'e', fmt.Sprintf("99.%d", i))
 		}
 		var wg sync.WaitGroup
+		start := make(chan struct{}) // all producers are released together so that they really overlap
 		for p := 0; p < np; p++ {
 			wg.Add(1)
 			go func(p int) {
 				defer wg.Done()
+				<-start
 				for n := 0; n < ni; n++ {
 					kind := byte('e')
 					if n%3 == 2 {
@@ -312,6 +317,7 @@ func runC06Stalled(cases []string, out *bufio.Writer, _ []string) {
 				}
 			}(p)
 		}
+		close(start)
 		wdone := make(chan struct{})
 		go func() { wg.Wait(); close(wdone) }()
 		ret := "1"
